@@ -1032,7 +1032,7 @@ fn run_fuzz_campaign(id: &str, target: &str, runs: u64, seed: u64) -> (Value, Ve
     let dict = work.join("dict");
     let _ = std::fs::write(&dict, ["bool", "else", "false", "if", "int", "then", "true", "type", "=>", "->", "==", "<=", ">=", ";", "#", "_", "(", ")", "{", "}", ":"].iter().map(|k| format!("\"{k}\"\n")).collect::<String>());
     let out = Command::new("cargo")
-        .args(["+nightly", "fuzz", "run", target, "--target-dir"])
+        .args(["+nightly", "fuzz", "run", "--sanitizer", "none", target, "--target-dir"])
         .arg(root.join(".target").join("fuzz"))
         .arg("--fuzz-dir")
         .arg(root.join("harness").join("fuzz"))
@@ -1075,6 +1075,10 @@ fn run_fuzz_campaign(id: &str, target: &str, runs: u64, seed: u64) -> (Value, Ve
         let replays = root.join("replays").join(id);
         let _ = std::fs::create_dir_all(&replays);
         for e in dir.filter_map(Result::ok) {
+            // Only crashes are verdicts; slow units, timeouts and OOMs are not.
+            if !e.file_name().to_string_lossy().starts_with("crash-") {
+                continue;
+            }
             let bytes = std::fs::read(e.path()).unwrap_or_default();
             let dest = replays.join(format!("fuzz-{}", e.file_name().to_string_lossy()));
             let _ = std::fs::write(&dest, &bytes);
